@@ -14,7 +14,7 @@ ASSUMPTIONS = ["template model + ref.pattern renderer are the oracle; filler nev
                "value of a {pep440_version} slot is attributed to C15, staleness to C03"]
 COMPONENTS = {"bumpver cli update/show, config, rewrite": "real", "files": "real scratch directory", "clock": "simulated",
               "VCS": "none or FakeRepo (git personality)"}
-CAMPAIGNS = [Life("C03", quick=14000, thorough=400000, mode="mix", sv_rate=0.08),
+CAMPAIGNS = [Life("C03", quick=14000, thorough=400000, mode="mix", sv_rate=0.08, invalid_utf8=True),
              BadConfig("C03", "dup_key", quick=400, thorough=8000)]
 
 
